@@ -1,6 +1,8 @@
 package binary
 
 import (
+	"io"
+
 	"github.com/cloudwego/dynamicgo/proto"
 	"github.com/cloudwego/dynamicgo/proto/protowire"
 )
@@ -19,6 +21,10 @@ func (p *BinaryProtocol) SkipBytesType() (int, error) {
 	v, n := protowire.ConsumeVarint((p.Buf)[p.Read:])
 	if n < 0 {
 		return n, errDecodeField
+	}
+	// the length comes from the input: the data it announces must lie in the buffer
+	if v > uint64(len(p.Buf)-p.Read-n) {
+		return 0, io.EOF
 	}
 	all := int(v) + n
 	_, err := p.next(all)
